@@ -69,11 +69,8 @@ func extraVariants(tier string) []variant {
 				E("bpmn:sourceRef").txt(c.id("prop1")), E("bpmn:targetRef").txt(c.id("di1")),
 				E("bpmn:assignment", A("id", c.id("as1"))).add(E("bpmn:from", formalT).txt("1"), E("bpmn:to", formalT).txt("x")))))
 	}))
-	vs = append(vs, bodyVariant("userTask[potentialOwner]", 3, func(c *ctx) {
-		c.chain(c.node("bpmn:userTask", "x", ss("f1"), ss("f2")).add(
-			E("bpmn:potentialOwner", A("id", c.id("po1"))).add(
-				E("bpmn:resourceAssignmentExpression", A("id", c.id("rae1"))).add(E("bpmn:formalExpression").txt("group1")))))
-	}))
+	// (userTask/potentialOwner is not offered: Activity models only the head element resourceRole,
+	// so a potentialOwner child never reaches the model.)
 	vs = append(vs, bodyVariant("complexGateway[activationCondition]", 3, func(c *ctx) {
 		c.chain(c.node("bpmn:complexGateway", "x", ss("f1"), ss("f2")).add(E("bpmn:activationCondition", formalT).txt("true")))
 	}))
